@@ -148,7 +148,9 @@ func init() {
 		Technique: "contract-based deductive verification: bank-level settlement postconditions on the real swap functions (per hop and per route: sender debited exactly, recipient credited at least, nobody else's balance moves), accept-only-enqueues frames on the message handlers, structural obligations on the end-of-block batch (requests applied on fresh cache contexts, written only after success); VCs from go/ssa discharged by z3/cvc5"})
 	register(&PropSpec{ID: "C11", Level: "proof", Contracts: true,
 		Technique: "contract-based deductive verification: functional contracts on the two accounted-pool update functions (accounted balance of every listed denom = reserve of the pool object handed in + perpetual liabilities - custody of the perpetual pool object handed in; recorded perpetual part kept by liquidity-pool changes), interface contracts on the perpetual position hooks whose preconditions (the two pool objects are the stored ones, quantified over denoms) are proved at the call sites in x/perpetual; VCs from go/ssa discharged by z3/cvc5"})
-	register(&PropSpec{ID: "C09", Level: "proof", Contracts: true,
+	register(&PropSpec{ID: "C09", Level: "proof", Contracts: true, Extra: func(e *Engine, pc *PropertyCheck) {
+		e.writerClosure(pc, "C09", "perpetual", "perpetual:types.GetMTPKey", "perpetual:types.OpenMTPCountPrefix", "perpetual:types.MTPCountPrefix")
+	},
 		Technique: "contract-based deductive verification: delta-match contracts on the real perpetual functions that move position amounts (Borrow, Repay, borrow-interest settlement, funding collection and distribution, consolidation merge): whatever they add to or take from a position's custody, liabilities and collateral they add to or take from the pool's book for that side and asset, and from no other; type-level contracts on the pool's update functions; open-position counter in step with the stored positions on SetMTP/DestroyMTP; VCs from go/ssa discharged by z3/cvc5. Partial: per-operation on the objects handed in, not yet the stored-state sum over all positions; custody backing by the liquidity pool not decided"})
 	register(&PropSpec{ID: "C13", Level: "proof", Contracts: true, Extra: func(e *Engine, pc *PropertyCheck) {
 		e.writerClosure(pc, "C13", "masterchef", "masterchef:types.GetUserRewardInfoKey", "masterchef:types.GetPoolRewardInfoKey")
